@@ -20,7 +20,8 @@ const THEORIES: &[&str] = &[
     "", "#true.", "#false.", "p.", "forall X (p(X)).", "exists X$i (X$i = 9223372036854775807).", "exists X$i (X$i = 9223372036854775808).", "forall X Y Z (p(X, Y, Z) <-> q(Z, Y, X)).", "forall X (X = X).",
     "p(-9223372036854775808).", "p(- 9223372036854775807 - 1).", "exists N$i (N$i * 9223372036854775807 > 0).", "forall X$i X$g X$s (p(X$i, X$g, X$s)).", "forall X$ (p(X$)).", "forall (p).", "forall X.", "exists X (", "p <- q <- r.",
     "p <-> q <-> r.", "not not not not p.", "1 < 2 < 3 < 4 < 5 < 6.", "a < 1 < #sup < #inf.", "p(#inf, #sup, a, 1, X, X$i, X$s).", "forall X$s (X$s = a).", "exists X$s X$i (X$s = X$i).", "p(X$i + a).", "p(a + 1).",
-    "forall X (p(X) and (q(X) or (r(X) -> (s(X) <- (t(X) <-> not u(X)))))).", "forall X X X (p(X)).", "exists X$i X$g (X$i = X$g).", "p(f).", "p(n$i).", "p(n$g, n$s).",
+    "forall X (p(X) and (q(X) or (r(X) -> (s(X) <- (t(X) <-> not u(X)))))).", "exists X$i Y$s (Z = X$i and Z = Y$s and p(X$i)).", "exists Y$s X$i (Y$s = Z and X$i = Z and p(X$i + 1)).", "exists X$g Y$s N$i (X$g = Y$s and X$g = N$i and p(N$i)).",
+    "forall X$s (exists N$i (X$s = N$i) -> p(X$s)).", "exists N$i X$s (N$i = X$s).", "exists X$s (X$s = 1 and p(X$s)).", "exists N$i (N$i = a and p(N$i)).", "forall X X X (p(X)).", "exists X$i X$g (X$i = X$g).", "p(f).", "p(n$i).", "p(n$g, n$s).",
 ];
 pub const GUIDES: &[&str] = &[
     "", "input: p/0.", "input: p/99999999999999999999.", "input: p/18446744073709551615.", "input: p/18446744073709551616.", "input: n -> integer. input: n -> integer.", "output: p/1. output: p/1.", "input: -> integer.",
